@@ -358,7 +358,7 @@ theorem _root_.Conn.tc_step' {s s' : St} {l : Label} (h : step s l = some s') (h
 
 /-- Labels outside `reqLabel` that do not cancel any request context. -/
 def _root_.Conn.Label.plainC : Label → Bool
-  | .ecall | .enotify | .ectx _ | .eclose | .ewait | .start | .n1 _ | .n2 _ | .c1 _ | .retire _ | .wt _ | .cl1 | .rresp => true
+  | .ecall | .ecallbad | .enotify | .ectx _ | .eclose | .ewait | .start | .n1 _ | .n2 _ | .c1 _ | .retire _ | .wt _ | .cl1 | .rresp => true
   | .wret (.resp _) _ => false
   | .wret _ _ => true
   | .w1 (.resp _) => false
